@@ -23,6 +23,14 @@ storage / listing (wave 2): the model is a function of the NUMERIC values.  Ever
                compare cases may store discrepancies / n_sim / prior weights in integer or float32 dtypes and other
                containers; a dedicated stream has an exact-zero prior weight at every position.  Python side:
                `inputs_unmutated` (the arrays handed in are bit-identical afterwards).
+configuration (wave 3): the further runs may build the adjustment object with keyword arguments (handed to scikit-learn's
+               LinearRegression: fit_intercept, copy_X, positive, n_jobs).  Coq: `fit_ok cfg` = the run's own (intercept_, coef_)
+               solve the regression problem of ITS configuration (normal equations of [1 X] / of [X] with intercept_ = 0 / KKT
+               conditions of the non-negative problem), the output is theta - (s - s_obs).coef_ on the exact regressors, a run whose
+               configuration poses the default problem (any copy_X / n_jobs) agrees with the same model result as the reference
+               run, and the object's X attribute read back after adjust() is summaries - observed (`x_attr_ok`).  Python side:
+               `regressors_unmutated` (X attribute value-identical to summaries - observed computed before the fit, also after a
+               second adjust()), `adjust_repeatable` (a second adjust() on the fitted object returns the same arrays).
 """
 import math
 import numpy as np
@@ -194,7 +202,13 @@ class C17(PropCheck):
             'runs where every summary and observed array is float32/bool (X float32 or bool). '
             'compare: 40% of the cases (and the whole zero-prior stream) store discrepancies as float64/float32/int64/int32 arrays in the five layouts, n_sim as '
             'int/np.int64/np.int32, prior weights as list/tuple/int list/float64/float32/int64/int32 array; a dedicated stream (every run) has 2-4 models with an exact-zero prior weight at a '
-            'random position (first/middle/last all visited), further zeros with 12% each, weights in eighths or un-normalised integers.')
+            'random position (first/middle/last all visited), further zeros with 12% each, weights in eighths or un-normalised integers. '
+            'Configuration (wave 3): the further runs may build the adjustment object with keyword arguments (documented as handed to the regression model, scikit-learn '
+            'LinearRegression): any subset of fit_intercept / copy_X / positive / n_jobs in {None,1,2,-1}, each passed explicitly or left out; a dedicated stream (every run) has '
+            'float64 samples of k+2..14 rows, half of them without any non-finite entry, with 2-3 configured runs each (run 0 always copy_X=False; half of the cases all-float64 '
+            'with run 0 in the canonical listing), and 50% / 30% of the re-listed / re-stored runs of the other adjust streams are configured too; positive=True only when [1 X] of '
+            'every fitted parameter has full column rank (unique non-negative slope). Every run (reference run included) reads back the X attribute after adjust() and calls '
+            'adjust() a second time.')
     trusted = ('scikit-learn LinearRegression is an oracle: only "its (intercept_, coef_) solve the normal equations within 1e-9" is checked per case',
                'numpy.linalg.lstsq (centred data) as the oracle slope for the model side; numpy.argsort order is validated inside Coq (permutation + ascending)',
                'binary64 arithmetic is modelled exactly over Q: summaries - observed and the dot product are compared with tolerances (1e-12 formula, 1e-9 normal equations, 1e-8 oracle slope); generator keeps |values| <= 4 so nothing overflows',
@@ -203,7 +217,11 @@ class C17(PropCheck):
                'for the Coq side (discrepancies are Q) the harness embeds them order-isomorphically (-inf -> min-1, +inf -> max+1, nan -> max+2), which is sound because compare_models reads the values only through argsort; '
                'the python-side formula clause uses the extended order directly',
                'storage: harness.store() builds every array and asserts that converting it back to float64 gives the case values (Coq re-validates the tags: run_wf/storable); '
-               'that numpy hands those dtypes / strides to the code unchanged is trusted; runs whose regressor matrix would be float32 or bool (all arrays float32/bool) are not generated')
+               'that numpy hands those dtypes / strides to the code unchanged is trusted; runs whose regressor matrix would be float32 or bool (all arrays float32/bool) are not generated',
+               'configuration: which regression problem a configuration poses (fit_intercept -> intercept column or intercept_ = 0; positive -> non-negative least squares, checked through its '
+               'Karush-Kuhn-Tucker conditions; copy_X / n_jobs -> nothing) is the model of scikit-learn LinearRegression, read from its documentation; the oracle slope for the non-default problems '
+               '(numpy lstsq on un-centred data; enumeration of the supports for positive=True) is harness code; the expected regressor matrix of the python clause regressors_unmutated is '
+               'np.stack(summaries) - np.stack(observed) evaluated by the harness before the fit (the Coq clause x_attr_ok compares the attribute with the exact differences instead)')
 
     # ------------------------------------------------------------------------------------------
     def _val(self, mode):
@@ -408,7 +426,7 @@ class C17(PropCheck):
         r = self.rng
         case = self.gen_adjust(cfgstream=True)
         k, p = len(case['obs']), len(case['params'])
-        case['runs'] = self._make_runs(['real'] * k, ['real'] * p, case['obs'], r.choice([2, 2, 3]), native_first=False)
+        case['runs'] = self._make_runs(['real'] * k, ['real'] * p, case['obs'], r.choice([2, 2, 2, 3]), native_first=False)
         if r.random() < 0.5:          # everything float64 (also the observed summaries), canonical listing for run 0
             for run in case['runs']:
                 run['odt'] = ['f8'] * k
@@ -615,7 +633,7 @@ class C17(PropCheck):
         na, nc, nma, nmc = (150, 220, 12, 16) if self.tier == 'quick' else (2200, 3000, 120, 160)
         nx, nnf = (60, 90) if self.tier == 'quick' else (800, 1200)
         nst, nz = (100, 100) if self.tier == 'quick' else (700, 1000)
-        ncf = 70 if self.tier == 'quick' else 800
+        ncf = 60 if self.tier == 'quick' else 800
         for _ in range(na):
             yield self.gen_adjust()
         for _ in range(nx):
